@@ -202,12 +202,22 @@ package wire
 //@   modifies mapof(g.imports)
 //@ func (*gen).nameInFileScope
 //@   modifies nothing
+// A name is free in the injector if it is none of the injector's own names (C04, C14).
+//@ define freeIn(ig *injectorGen, name string) = name != ig.errVar && (forall j :: 0 <= j && j < len(ig.paramNames) ==> ig.paramNames[j] != name) && (forall j :: 0 <= j && j < len(ig.localNames) ==> ig.localNames[j] != name) && (forall j :: 0 <= j && j < len(ig.cleanupNames) ==> ig.cleanupNames[j] != name)
 //@ func (*injectorGen).nameInInjector
 //@   modifies nothing
+//@   ensures [C04,C14] !result ==> freeIn(ig, name)
+//@   loop 1 invariant [C04,C14] forall j :: 0 <= j && j < done ==> ig.paramNames[j] != name
+//@   loop 2 invariant [C04,C14] forall j :: 0 <= j && j < done ==> ig.localNames[j] != name
+//@   loop 3 invariant [C04,C14] forall j :: 0 <= j && j < done ==> ig.cleanupNames[j] != name
 //@ func disambiguate
 //@   modifies nothing
+//@   ensures [C04,C14] !collides(result)
+//@   ensures [C14] !token.Lookup(result).IsKeyword()
+//@   loop 1 invariant len(buf) >= base
 //@ func typeVariableName
 //@   modifies nothing
+//@   ensures [C14] !collides(result)
 //@ func zeroValue
 //@   callsback qf
 
@@ -219,6 +229,7 @@ package wire
 //@   modifies ig.cleanupNames, OUTLEN[&ig.g.buf], OUTEV[&ig.g.buf], mapof(ig.g.imports)
 //@   ensures [C03,C04] c.hasCleanup ==> len(ig.cleanupNames) == len(old(ig.cleanupNames)) + 1 && (forall j :: 0 <= j && j < len(old(ig.cleanupNames)) ==> ig.cleanupNames[j] == old(ig.cleanupNames)[j])
 //@   ensures [C03,C04] !c.hasCleanup ==> ig.cleanupNames == old(ig.cleanupNames)
+//@   ensures [C04,C14] c.hasCleanup ==> forall j :: 0 <= j && j < len(old(ig.cleanupNames)) ==> ig.cleanupNames[len(old(ig.cleanupNames))] != old(ig.cleanupNames)[j]
 //@   ensures [C03] ig.discard ==> OUTLEN[&ig.g.buf] == old(OUTLEN[&ig.g.buf])
 //@   ensures [C03] !ig.discard && c.hasErr ==> OUTLEN[&ig.g.buf] >= old(OUTLEN[&ig.g.buf]) + 4 + len(old(ig.cleanupNames))
 //@   ensures [C03] !ig.discard && c.hasErr ==> OUTEV[&ig.g.buf][OUTLEN[&ig.g.buf] - 1] == ev("\t}\n")
@@ -232,11 +243,61 @@ package wire
 //@   loop 1 invariant [C03] forall k :: old(OUTLEN[&ig.g.buf]) <= k && k < OUTLEN[&ig.g.buf] ==> evfmt(OUTEV[&ig.g.buf][k]) != "\tif %s != nil {\n" && evfmt(OUTEV[&ig.g.buf][k]) != "\t\t%s()\n" && evfmt(OUTEV[&ig.g.buf][k]) != "\t\treturn %s"
 //@   loop 1 invariant [C03,C04] c.hasCleanup ==> len(ig.cleanupNames) == len(old(ig.cleanupNames)) + 1 && (forall j :: 0 <= j && j < len(old(ig.cleanupNames)) ==> ig.cleanupNames[j] == old(ig.cleanupNames)[j])
 //@   loop 1 invariant [C03,C04] !c.hasCleanup ==> ig.cleanupNames == old(ig.cleanupNames)
+//@   loop 1 invariant [C04,C14] c.hasCleanup ==> forall j :: 0 <= j && j < len(old(ig.cleanupNames)) ==> ig.cleanupNames[len(old(ig.cleanupNames))] != old(ig.cleanupNames)[j]
 //@   loop 1 invariant OUTLEN[&ig.g.buf] >= old(OUTLEN[&ig.g.buf])
 //@   loop 2 invariant [C03] ig.discard ==> OUTLEN[&ig.g.buf] == old(OUTLEN[&ig.g.buf])
 //@   loop 2 invariant [C03,C04] c.hasCleanup ==> len(ig.cleanupNames) == len(old(ig.cleanupNames)) + 1 && (forall j :: 0 <= j && j < len(old(ig.cleanupNames)) ==> ig.cleanupNames[j] == old(ig.cleanupNames)[j])
 //@   loop 2 invariant [C03,C04] !c.hasCleanup ==> ig.cleanupNames == old(ig.cleanupNames)
-//@   loop 2 invariant i < prevCleanup && prevCleanup == len(old(ig.cleanupNames))
+//@   loop 2 invariant [C04,C14] c.hasCleanup ==> forall j :: 0 <= j && j < len(old(ig.cleanupNames)) ==> ig.cleanupNames[len(old(ig.cleanupNames))] != old(ig.cleanupNames)[j]
+//@   loop 2 invariant 0 - 1 <= i && i < prevCleanup && prevCleanup == len(old(ig.cleanupNames))
 //@   loop 2 invariant [C03] !ig.discard ==> OUTLEN[&ig.g.buf] >= old(OUTLEN[&ig.g.buf]) + 1 + (prevCleanup - 1 - i)
 //@   loop 2 invariant [C03] !ig.discard ==> OUTEV[&ig.g.buf][OUTLEN[&ig.g.buf] - (prevCleanup - i)] == ev("\tif %s != nil {\n", ig.errVar)
 //@   loop 2 invariant [C03] !ig.discard ==> forall j :: i < j && j < prevCleanup ==> OUTEV[&ig.g.buf][OUTLEN[&ig.g.buf] - (j - i)] == ev("\t\t%s()\n", old(ig.cleanupNames)[j])
+
+//@ define isErrT(t types.Type) = tid(t) == tid(errorType)
+//@ define isFnT(t types.Type) = tid(t) == tid(cleanupType)
+//@ define okSig(sig *types.Signature) = sig.Results().Len() == 1 || (sig.Results().Len() == 2 && (isErrT(sig.Results().At(1).Type()) || isFnT(sig.Results().At(1).Type()))) || (sig.Results().Len() == 3 && isFnT(sig.Results().At(1).Type()) && isErrT(sig.Results().At(2).Type()))
+//@ define sigCleanup(sig *types.Signature) = (sig.Results().Len() == 2 && !isErrT(sig.Results().At(1).Type()) && isFnT(sig.Results().At(1).Type())) || sig.Results().Len() == 3
+//@ define sigErr(sig *types.Signature) = (sig.Results().Len() == 2 && isErrT(sig.Results().At(1).Type())) || sig.Results().Len() == 3
+//@ define wfCalls(calls []call, n int) = forall k :: 0 <= k && k < len(calls) ==> 0 <= calls[k].kind && calls[k].kind <= 3 && calls[k].out != nil && (calls[k].kind <= 1 ==> calls[k].pkg != nil) && (calls[k].kind == 1 ==> len(calls[k].fieldNames) == len(calls[k].args)) && (calls[k].kind == 3 ==> len(calls[k].args) >= 1) && (forall j :: 0 <= j && j < len(calls[k].args) ==> 0 <= calls[k].args[j] && calls[k].args[j] < n + k)
+//@ define distinctNames(names []string) = forall a, b :: 0 <= a && a < b && b < len(names) ==> names[a] != names[b]
+
+//@ func (*injectorGen).structProviderCall
+//@   requires c.pkg != nil && argsInRange(ig, c) && len(c.fieldNames) == len(c.args)
+//@   modifies OUTLEN[&ig.g.buf], OUTEV[&ig.g.buf], mapof(ig.g.imports)
+//@   ensures ig.discard ==> OUTLEN[&ig.g.buf] == old(OUTLEN[&ig.g.buf])
+//@   loop 1 invariant ig.discard ==> OUTLEN[&ig.g.buf] == old(OUTLEN[&ig.g.buf])
+//@ func (*injectorGen).valueExpr
+//@   modifies OUTLEN[&ig.g.buf], OUTEV[&ig.g.buf]
+//@   ensures ig.discard ==> OUTLEN[&ig.g.buf] == old(OUTLEN[&ig.g.buf])
+//@ func (*injectorGen).fieldExpr
+//@   requires argsInRange(ig, c) && len(c.args) >= 1
+//@   modifies OUTLEN[&ig.g.buf], OUTEV[&ig.g.buf]
+//@   ensures ig.discard ==> OUTLEN[&ig.g.buf] == old(OUTLEN[&ig.g.buf])
+
+//@ func injectPass
+//@   nullable doc
+//@   requires okSig(sig) && len(ig.paramNames) == 0 && len(ig.localNames) == 0 && len(ig.cleanupNames) == 0
+//@   requires wfCalls(calls, sig.Params().Len())
+//@   requires len(calls) == 0 ==> set.providerMap != nil && TMD[set.providerMap][tid(sig.Results().At(0).Type())] && TMV[set.providerMap][tid(sig.Results().At(0).Type())].(*ProvidedType).a != nil && 0 <= TMV[set.providerMap][tid(sig.Results().At(0).Type())].(*ProvidedType).a.Index && TMV[set.providerMap][tid(sig.Results().At(0).Type())].(*ProvidedType).a.Index < sig.Params().Len()
+//@   modifies ig.paramNames, ig.localNames, ig.cleanupNames, OUTLEN[&ig.g.buf], OUTEV[&ig.g.buf], mapof(ig.g.imports)
+//@   ensures [C04] ig.discard ==> OUTLEN[&ig.g.buf] == old(OUTLEN[&ig.g.buf])
+//@   ensures [C04,C14] distinctNames(ig.cleanupNames)
+//@   ensures [C04] !ig.discard ==> OUTEV[&ig.g.buf][OUTLEN[&ig.g.buf] - 1] == ev("\n}\n\n")
+//@   ensures [C04] !ig.discard && sigErr(sig) ==> OUTEV[&ig.g.buf][OUTLEN[&ig.g.buf] - 2] == ev(", nil")
+//@   ensures [C04] !ig.discard && sigCleanup(sig) ==> OUTEV[&ig.g.buf][OUTLEN[&ig.g.buf] - 2 - (sigErr(sig) ? 1 : 0)] == ev("\t}")
+//@   ensures [C04] !ig.discard && sigCleanup(sig) ==> forall j :: 0 <= j && j < len(ig.cleanupNames) ==> OUTEV[&ig.g.buf][OUTLEN[&ig.g.buf] - 3 - (sigErr(sig) ? 1 : 0) - j] == ev("\t\t%s()\n", ig.cleanupNames[j])
+//@   ensures [C04] !ig.discard && sigCleanup(sig) ==> OUTEV[&ig.g.buf][OUTLEN[&ig.g.buf] - 3 - (sigErr(sig) ? 1 : 0) - len(ig.cleanupNames)] == ev(", func() {\n")
+//@   ensures [C04] !ig.discard && !sigCleanup(sig) ==> evfmt(OUTEV[&ig.g.buf][OUTLEN[&ig.g.buf] - 2 - (sigErr(sig) ? 1 : 0)]) == "\treturn %s"
+//@   loop 1 invariant len(ig.paramNames) == 0 && len(ig.localNames) == 0 && len(ig.cleanupNames) == 0
+//@   loop 1 invariant [C04] ig.discard ==> OUTLEN[&ig.g.buf] == old(OUTLEN[&ig.g.buf])
+//@   loop 2 invariant i <= sig.Params().Len() && len(ig.paramNames) == i && len(ig.localNames) == 0 && len(ig.cleanupNames) == 0
+//@   loop 2 invariant [C04] ig.discard ==> OUTLEN[&ig.g.buf] == old(OUTLEN[&ig.g.buf])
+//@   loop 3 invariant len(ig.paramNames) == sig.Params().Len() && len(ig.localNames) == done
+//@   loop 3 invariant [C04] ig.discard ==> OUTLEN[&ig.g.buf] == old(OUTLEN[&ig.g.buf])
+//@   loop 3 invariant [C04,C14] distinctNames(ig.cleanupNames)
+//@   loop 4 invariant 0 - 1 <= i && i < len(ig.cleanupNames)
+//@   loop 4 invariant [C04] ig.discard ==> OUTLEN[&ig.g.buf] == old(OUTLEN[&ig.g.buf])
+//@   loop 4 invariant [C04,C14] distinctNames(ig.cleanupNames)
+//@   loop 4 invariant [C04] !ig.discard ==> OUTEV[&ig.g.buf][OUTLEN[&ig.g.buf] - (len(ig.cleanupNames) - i)] == ev(", func() {\n")
+//@   loop 4 invariant [C04] !ig.discard ==> forall j :: i < j && j < len(ig.cleanupNames) ==> OUTEV[&ig.g.buf][OUTLEN[&ig.g.buf] - (j - i)] == ev("\t\t%s()\n", ig.cleanupNames[j])
